@@ -99,6 +99,11 @@ fn lookups_decoded(d: &DecodedMap, qs: &[Value]) -> Value {
 fn observe(sm: &SourceMap, qs: &[Value], via: &str, how: &str, em: &mut Emitter) {
     let toks: Vec<Value> = sm.tokens().map(|t| tok_json(&t)).collect();
     em.emit("ordering", json!({"how": how, "via": via}), ordering_out(sm));
+    // Numbers >= 2^30 are logged through an order-preserving map that is exact only at the stand-in values.  A producer
+    // that MOVES such a position (adjust_mappings) yields values the log cannot tell apart from a query's: only the
+    // ordering is judged there, not the lookups.
+    let moved = via != "direct" && toks.iter().any(|t| (0..2).any(|k| { let x = t[k].as_i64().unwrap(); x >= 1 << 30 && x != MAXU }));
+    if moved { return; }
     em.emit("lookups", json!({"how": how, "via": via, "toks": toks, "qs": qs}), lookups_out(sm, qs));
 }
 
